@@ -80,6 +80,13 @@ func c09Lookup(name string) e2.RunFn {
 	}
 	ringS = strings.TrimPrefix(parts[0], "ring=")
 	fmt.Sscanf(parts[1], "j=%d", &j)
+	// "l=<id>": instead of a join, member <id> leaves (its neighbours pass through states with a
+	// forgotten predecessor and fingers still naming the leaver) - round-10 seed
+	var leaver uint64
+	isLeave := strings.HasPrefix(parts[1], "l=")
+	if isLeave {
+		fmt.Sscanf(parts[1], "l=%d", &leaver)
+	}
 	fmt.Sscanf(parts[2], "via=%d", &via)
 	var ids []uint64
 	for _, f := range strings.Split(ringS, ",") {
@@ -94,6 +101,9 @@ func c09Lookup(name string) e2.RunFn {
 		}
 		jn := chordlib.NewNode(j, nil)
 		all := append(append([]*rchord.LocalNode(nil), r.Sorted()...), jn)
+		if isLeave {
+			all = append([]*rchord.LocalNode(nil), r.Sorted()...)
+		}
 		pset := map[uint64]bool{0: true, M - 1: true}
 		for _, n := range all {
 			pset[n.ID()] = true
@@ -114,7 +124,11 @@ func c09Lookup(name string) e2.RunFn {
 		pausedAt := ""
 		probes, answered := 0, 0
 		res := vsched.Run(vsched.Options{Prefix: prefix, MaxSteps: 3000000, KeepLog: os.Getenv("VERIF_LOG") != "", LogLimit: 100000}, func() {
-			vsched.GoNamed("join", false, func() { joinErr = jn.Join(r.Nodes[via%len(r.Nodes)]) })
+			if isLeave {
+				vsched.GoNamed("leave", false, func() { r.Get(leaver).Leave() })
+			} else {
+				vsched.GoNamed("join", false, func() { joinErr = jn.Join(r.Nodes[via%len(r.Nodes)]) })
+			}
 			vsched.GoNamed("probe", false, func() {
 				vsched.AtomicEnter()
 				defer vsched.AtomicLeave()
@@ -139,7 +153,7 @@ func c09Lookup(name string) e2.RunFn {
 		}
 		x := &explore.Exec{Res: res, Outcome: fmt.Sprintf("%s joinErr=%v answered=%d/%d", pausedAt, joinErr, answered, probes)}
 		if f := res.Failed(); f != "" {
-			x.Violation = fmt.Sprintf("lookup during join paused at %s: %s", pausedAt, f)
+			x.Violation = fmt.Sprintf("lookup during %s paused at %s: %s", map[bool]string{true: "leave", false: "join"}[isLeave], pausedAt, f)
 			if pausedAt == "" {
 				x.Violation = fmt.Sprintf("lookup during join (probe first): %s", f)
 			}
@@ -179,6 +193,16 @@ func c09Scenarios(thorough bool) []string {
 				}
 				out = append(out, fmt.Sprintf("ring=%s;j=%d;via=%d", joinU(r), j, via))
 			}
+		}
+	}
+	// a member leaves a stable ring (lookups at every pause point of the real Leave)
+	lrings := [][]uint64{{100, 200, 300}, {5, 1 << 47, M - 2}}
+	if thorough {
+		lrings = append(lrings, []uint64{100, 200}, []uint64{100, 200, 300, 400}, []uint64{0, 1 << 46, 1 << 47, 3 << 46})
+	}
+	for _, r := range lrings {
+		for _, l := range r {
+			out = append(out, fmt.Sprintf("ring=%s;l=%d;via=0", joinU(r), l))
 		}
 	}
 	return out
@@ -226,7 +250,7 @@ func c09(c *report.Check) {
 	c.Set("distinct_nontrivial", len(sum.Outcomes))
 	c.Set("scenarios", len(scns))
 	c.Set("preemption_bound", bound)
-	c.Set("rule", fmt.Sprintf("%d join scenarios (ring x joiner position x entry node); for every scheduling point of the real Join (statement-level points in chord membership/lookup/stabilize code, preemption bound 1) the join is paused and one probe step runs FindSuccessor at every node incl. the joiner for every probe id (members, ±1, +2^47, midpoints, 0, 2^48-1); termination = each lookup finishes within 20000 scheduling-point calls (a legitimate lookup on <=5 nodes needs <2000); 'states' = distinct (pause point, join result, answers) outcomes; plus %d scenarios of two racing membership changes (joins to one or two successors%s) with a third thread that issues, as one step placed anywhere in the schedule, lookups at every member and joiner, every schedule within preemption bound %d: no lookup may block forever", len(scns), len(cscns), map[bool]string{true: ", a leave racing a join", false: ""}[c.Thorough()], cb))
+	c.Set("rule", fmt.Sprintf("%d join scenarios (ring x joiner position x entry node) and leave scenarios (ring x leaving member); for every scheduling point of the real Join / Leave (statement-level points in chord membership/lookup/stabilize code, preemption bound 1) the join is paused and one probe step runs FindSuccessor at every node incl. the joiner for every probe id (members, ±1, +2^47, midpoints, 0, 2^48-1); termination = each lookup finishes within 20000 scheduling-point calls (a legitimate lookup on <=5 nodes needs <2000); 'states' = distinct (pause point, join result, answers) outcomes; plus %d scenarios of two racing membership changes (joins to one or two successors%s) with a third thread that issues, as one step placed anywhere in the schedule, lookups at every member and joiner, every schedule within preemption bound %d: no lookup may block forever", len(scns), len(cscns), map[bool]string{true: ", a leave racing a join", false: ""}[c.Thorough()], cb))
 	var samples []any
 	for i, s := range scns {
 		if i%(len(scns)/3+1) == 0 {
